@@ -20,11 +20,17 @@ import (
 	"github.com/anishathalye/porcupine"
 
 	"github.com/named-data/ndnd/fw/core"
+	"github.com/named-data/ndnd/fw/defn"
 	"github.com/named-data/ndnd/fw/dispatch"
 	"github.com/named-data/ndnd/fw/face"
+	"github.com/named-data/ndnd/fw/fw"
 	fwmgmt "github.com/named-data/ndnd/fw/mgmt"
 	"github.com/named-data/ndnd/fw/table"
 	enc "github.com/named-data/ndnd/std/encoding"
+	"github.com/named-data/ndnd/std/ndn"
+	spec "github.com/named-data/ndnd/std/ndn/spec_2022"
+	sec "github.com/named-data/ndnd/std/security"
+	"github.com/named-data/ndnd/std/utils"
 
 	"verifsim/kit"
 )
@@ -114,6 +120,14 @@ func (Engine) Generate(prop string, r *kit.Rand, tier string) *kit.Scenario[Conf
 			o.Op, o.Name = "lookup", kit.Pick(r, lookNames)
 			if c.Pre > 0 && r.Chance(0.5) {
 				o.Name = fmt.Sprintf("/bg/%d", r.Intn(c.Pre))
+			}
+			if r.Chance(0.2) {
+				// ... or the whole pipeline of a forwarding thread: an Interest from face Face (Cost, if not 0, is the
+				// next hop the consumer chose), then the Data that answers it from face Origin
+				o.Op, o.Face, o.Cost, o.Origin = "fwd", uint64(r.Range(1, 3)), uint64(r.Intn(4)), uint64(r.Range(1, 3))
+				if r.Chance(0.35) {
+					o.Name = "/localhost/sched" // the scope rules look at the faces once more
+				}
 			}
 		case 8:
 			o.Op = kit.Pick(r, []string{"list", "list", "mlist", "mlist", "mslist", "rlist", "rlist", "faceadd", "faceadd"})
@@ -627,6 +641,10 @@ func (e Engine) Run(t *testing.T, ctx *kit.Ctx, sc *kit.Scenario[Config, Op]) *k
 
 // Whether the code under test spawns goroutines is a property of the build: once one has been seen (or while the
 // process is young) the end of a run waits a moment for late ones.
+var fwThread *fw.Thread
+var fwdSigner ndn.Signer
+var fwdSeq int
+
 var sawSpawn bool
 var processRuns int
 
@@ -640,8 +658,18 @@ func (e Engine) runOnce(t *testing.T, ctx *kit.Ctx, sc *kit.Scenario[Config, Op]
 		core.InitializeLogger("")
 		table.Configure()
 		face.Configure()
+		fw.Configure()
 		configured = true
 	}
+	if fwThread == nil {
+		// one forwarding thread per process (its loop does not run: its pipelines are called by "fwd" operations)
+		fwThread = fw.NewThread(0)
+		fwThread.VerifDNL().Ticker.Stop()
+		fw.Threads = []*fw.Thread{fwThread}
+		dispatch.InitializeFWThreads([]dispatch.FWThread{fwThread})
+		fwdSigner = sec.NewSha256Signer()
+	}
+
 	c := sc.Config
 	core.GetConfig().Tables.Fib.Hashtable.M = uint16(max(1, c.M))
 	table.VerifResetGlobals()
@@ -809,6 +837,33 @@ func (e Engine) runOnce(t *testing.T, ctx *kit.Ctx, sc *kit.Scenario[Config, Op]
 						sn = st[3].String()
 					}
 					ops = append(ops, porcupine.Operation{ClientId: ti, Input: &Op{Task: o.Task, Op: "strat", Name: o.Name}, Call: int64(call2), Output: sn, Return: int64(ret2)})
+					continue
+				case "fwd":
+					// the real incoming-Interest and incoming-Data pipelines of a forwarding thread, run on this task:
+					// table lookups and face look-ups as the thread makes them, while faces come and go. Nothing is
+					// recorded for the history; a crash or a deadlock is what this operation can show
+					fwdSeq++
+					iname := append(mkName(o.Name), enc.NewStringComponent(enc.TypeGenericNameComponent, fmt.Sprintf("t%d-%d", ti, fwdSeq)))
+					icfg := &ndn.InterestConfig{Nonce: utils.IdPtr(uint64(5000 + fwdSeq)), Lifetime: utils.IdPtr(20 * time.Millisecond)}
+					ei, err := spec.Spec{}.MakeInterest(iname, icfg, nil, nil)
+					if err != nil {
+						panic("harness: MakeInterest: " + err.Error())
+					}
+					iraw := ei.Wire.Join()
+					ip, _, _ := spec.ReadPacket(enc.NewBufferReader(iraw))
+					ipkt := &defn.Pkt{Name: ip.Interest.NameV, L3: ip, Raw: iraw, IncomingFaceID: utils.IdPtr(o.Face)}
+					if o.Cost != 0 {
+						ipkt.NextHopFaceID = utils.IdPtr(o.Cost)
+					}
+					fwThread.VerifInterest(ipkt)
+					ed, err := spec.Spec{}.MakeData(iname, &ndn.DataConfig{ContentType: utils.IdPtr(ndn.ContentTypeBlob)}, enc.Wire{[]byte("x")}, fwdSigner)
+					if err != nil {
+						panic("harness: MakeData: " + err.Error())
+					}
+					draw := ed.Wire.Join()
+					dp, _, _ := spec.ReadPacket(enc.NewBufferReader(draw))
+					fwThread.VerifData(&defn.Pkt{Name: dp.Data.NameV, L3: dp, Raw: draw, IncomingFaceID: utils.IdPtr(o.Origin)})
+					ctx.Probe("forwarding-pipeline-run")
 					continue
 				case "faceadd":
 					// a new face registers itself (a listener accepted a connection) while everything else goes on
